@@ -107,7 +107,7 @@ def build(job):
             parts.append(C.Part("file", var["names"][i % 2], content, var["filename"], var["extra"]))
         else:
             parts.append(C.Part("field", var["names"][i % 2], content))
-    body = C.encode_form(parts, boundary, var["pre"], var["epi"], lb=job.get("lb", b"\r\n"))
+    body = C.encode_form(parts, boundary, var["pre"], var["epi"], lb=job.get("lb", b"\r\n"), pad=job.get("pad", b""))
     return parts, body, allvars, boundary
 
 
@@ -278,6 +278,10 @@ def jobs(tier: str):
                 continue
             out.append(dict(name=f"{label}/b0/plain/decoder-{lbname}", tmpl=tmpl, boundary=0, variant=0, entries=["decoder", "parse_stream"],
                             cutmode="cut1", empties=False, lb=lb, weight=4 ** nsym * 2))
+    # delimiters followed by long transport padding (40 blanks), every single cut position: a chunk border inside the padding included
+    for label, tmpl in (("field1+file1", [("field", 1, b"", b""), ("file", 1, b"", b"")]), ("file1", [("file", 1, b"", b"")])):
+        out.append(dict(name=f"{label}/b0/plain/padded-delimiters", tmpl=tmpl, boundary=0, variant=0, entries=["decoder", "parse_stream", "parse_async_stream"],
+                        cutmode="cut1", focus=False, empties=False, pad=b" \t" * 20, weight=60))
     out.append(dict(name="twin/file1", tmpl=[("file", 1, b"", b"")], boundary=0, variant=0, entries=["decoder", "wsgi_form"],
                     cutmode="whole", twin=True))
     return out
